@@ -219,7 +219,8 @@ def run(ctx):  # noqa: C901, PLR0912, PLR0915
         for hn, hc in [(n_, c_) for n_ in gh_.real_nodes() for c_ in n_.calls()
                        if (call_name(c_) or '').startswith('process_incoming_')]:
             n_h += 1
-            cond = [t for t, _ in gh_.facts_at(hn).both() if 'is_initialized' in t or 'mdib_state' in t or '_state' in t]
+            cond = [t for t, _ in gh_.facts_at(hn).both() if any(w in t for w in ('is_initialized', 'mdib_state', 'MdibState',
+                                                                                  'initializ', '._state'))]
             ctx.ob('C06.R3', f'{name}: {call_name(hc)} unconditional', not cond,
                    f'{name} hands every report to {call_name(hc)}' if not cond else
                    f'{name} calls {call_name(hc)} only under {cond}: reports that arrive while the MDIB is loading are dropped '
@@ -227,6 +228,10 @@ def run(ctx):  # noqa: C901, PLR0912, PLR0915
     ctx.floor('C06.R3', n_h, 6, 'report hand-overs in ConsumerMdibMethods')
     from . import common
     common.update_from_other_is_total(ctx, 'C06.R2')   # the in-place update makes the mirrored state equal to the reported one
+    # a log call that raises inside a report handler loses the report
+    common.log_templates_are_constant(ctx, 'C06.R3', ['sdc11073.mdib.consumermdib', 'sdc11073.consumer.consumerimpl',
+                                                      'sdc11073.consumer.subscription'])
+    common.no_mutation_while_iterating(ctx, 'C06.R2', ['sdc11073.mdib.consumermdib', 'sdc11073.mdib.mdibbase'])
     from .c01 import reload_replay_rules
     reload_replay_rules(ctx, 'C06.R4')   # reports that arrive during the (re)load are neither lost nor applied twice
     from .c07 import snapshot_providers
@@ -296,6 +301,9 @@ from selftest import seed  # noqa: E402
 
 _CM = 'src/sdc11073/mdib/consumermdib.py'
 SEEDS = [
+    seed('sync_context_states removes from the table it iterates (the defect repaired by 7366816)', 'C06.R2',
+         ('src/sdc11073/mdib/consumermdibxtra.py', "            for obj in list(self._mdib.context_states.objects):  # removal changes the table that is iterated",
+          "            for obj in self._mdib.context_states.objects:")),
     seed('gate accepts everything positive', 'C06.R1', (_CM, "        return new_mdib_version >= self.mdib_version", "        return new_mdib_version >= 0")),
     seed('gate refuses duplicates of the current version only one-sided', 'C06.R1',
          (_CM, "        return new_mdib_version >= self.mdib_version", "        return new_mdib_version > self.mdib_version or new_mdib_version == self.mdib_version - 1")),
